@@ -457,3 +457,92 @@ api3 = lambda flavours=("rel",), env=None, name="api3": Stream(
 PROPS["C04"].streams.append(api3(("rel", "dbg")))
 PROPS["C03"].streams.append(api3(("rel",)))
 PROPS["C13"].streams.append(api3(("rel",), {"HX_ALLOC": "tag"}, "api3-tag"))
+
+
+# ---- model-fidelity audit (AUDIT.md): targeted cases for branches / boundaries of the models that the older streams did not reach.
+#      Every case is small and aimed; every stream agrees (0 disagreements) on the unchanged library in the rel and dbg flavours.
+audit_load = lambda name="audit-load", stream="load", flavours=("rel", "dbg"): Stream(
+    name, stream, cborgen.audit_cases, args=(LDEF, CAP), flavours=flavours, spec="load_spec" if stream == "load" else None, nontrivial=not_trivial_load,
+    rule="every builder callback of builder_callbacks.c (35 minimal heads: each integer / float width, definite / chunked strings, empty and non-empty "
+         "definite / indefinite arrays and maps, tags, the four simple values) in every position: root, definite / indefinite array element, "
+         "definite / indefinite map key and value, tag content, cascades closing three levels at once, the illegal positions (chunk of either "
+         "string kind, break after an odd member) and truncation right after it; every field of cbor_load_result compared (a non-zero position "
+         "on success is printed)")
+audit_load_cap = lambda: Stream(
+    "audit-load-cap4096", "load", cborgen.audit_cap_cases, args=(LDEF, 4096), flavours=("rel", "dbg"), spec="load_spec", nontrivial=not_trivial_load,
+    rule="a second allocator cap (4096 bytes): declared payload / array / map sizes at cap-1, cap, cap+1 bytes, and indefinite containers whose last "
+         "growth step is exactly cap bytes (the hypothesis under which model P's size cap coincides with the harness allocator: AUDIT.md D2)")
+audit_hist = lambda name="audit-hist", flavours=("rel", "dbg"), env=None: Stream(
+    name, "hist", histgen.audit_cases, args=(LDEF, CAP, "none", 0), flavours=flavours, env=env, nontrivial=lambda c, l: True, timeout=600,
+    rule="rarely used API against model H: cbor_decref(&p) setting p to NULL exactly on deallocation (every node kind), cbor_serialize_alloc with "
+         "buffer_size == NULL, _cbor_map_add_key / _cbor_map_add_value on their own (key-only pairs released, value slot overwritten), key == value, "
+         "one item many times in a container, reference counts wrapping at 0 and 2^64-1, constructors at the multiplication-guard / allocator-cap "
+         "boundaries and with size 0, cbor_array_set at index == size, copies sized by size not capacity, cbor_new_ctrl readable at once, and every "
+         "builder callback x position through the heap-level decoder followed by predicates / size / serialize / copy / release")
+audit_fault = lambda flavours=("rel",): Stream(
+    "audit-fault", "fault", histgen.audit_fault_cases, args=(LDEF, CAP), flavours=flavours, nontrivial=lambda c, l: " only" in l, timeout=1200,
+    rule="the audit calls and every builder callback in nested positions (map value inside a tag, indefinite map in indefinite array, definite array) "
+         "with request k alone / every request from k on refused, for every k")
+def audit_hist_cap(cap):
+    return Stream("audit-hist-cap%d" % cap, "hist", histgen.audit_cap_cases, args=(LDEF, cap, "none", 0), flavours=("rel", "dbg"), nontrivial=lambda c, l: True,
+                  rule="histories under a %d-byte allocator cap: model H applies the cap to every request (item blocks, stack records, payloads, growth "
+                       "steps), unlike model P; cbor_load, builders, growth, copy and serialize_alloc fail exactly where the harness allocator refuses" % cap)
+audit_tree = lambda name, stream, flavours=("rel", "dbg"), args=(): Stream(
+    name, stream, treegen.audit_cases, args=args, flavours=flavours, nontrivial=lambda c, l: True,
+    rule="capacity-0 / partially filled definite containers in every position, empty chunks at either end, simple values around the one-byte form, "
+         "half items holding values no half can represent (rounding / flushing of cbor_encode_half through the item path), every NaN kind")
+PROPS["C02"].streams.append(audit_load())
+PROPS["C05"].streams += [audit_load(), audit_load_cap(), audit_fault(("rel", "dbg")), audit_hist_cap(64), audit_hist_cap(48)]
+PROPS["C01"].streams += [audit_load("audit-loadpost", "loadpost", ("dbg", "rel")), audit_fault(("dbg",))]
+PROPS["C19"].streams.append(audit_load("audit-loadpost", "loadpost", ("rel",)))
+PROPS["C20"].streams.append(audit_load_cap())
+PROPS["C04"].streams.append(audit_hist())
+PROPS["C12"].streams.append(audit_hist())
+PROPS["C11"].streams += [audit_hist("audit-hist", ("rel",)), audit_tree("audit-copy", "copy")]
+PROPS["C13"].streams.append(audit_hist("audit-hist-tag", ("rel",), {"HX_ALLOC": "tag"}))
+PROPS["C06"].streams += [audit_fault(("rel", "dbg")), audit_hist_cap(64), audit_hist_cap(48)]
+PROPS["C07"].streams.append(audit_tree("audit-ser", "ser"))
+PROPS["C03"].streams += [audit_tree("audit-ser", "ser", ("rel",)), audit_tree("audit-rt", "rt", ("rel", "dbg"), (LDEF, CAP))]
+PROPS["C15"].streams.append(audit_tree("audit-ser", "ser", ("rel",)))
+PROPS["C18"].streams.append(audit_tree("audit-rdonly", "rdonly", ("rel", "O0")))
+PROPS["C09"].streams += [
+    Stream("audit-frag", "frag", streamgen.audit_frag_cases, stateless=True, flavours=("rel", "dbg"), nontrivial=lambda c, l: True,
+           rule="empty deliveries before / between / inside heads and after the end, deliveries after an ERROR, `required` at and one below the saturation point"),
+    Stream("audit-frag-fixed", "frag", streamgen.audit_frag_cases, stateless=True, flavours=("rel",), env={"HX_FIXEDRX": "1"}, nontrivial=lambda c, l: True,
+           rule="the same with one fixed receive buffer")]
+PROPS["C08"].streams.append(
+    Stream("audit-dec1", "dec1", streamgen.audit_cases, stateless=True, flavours=("rel", "dbg"), nontrivial=lambda c, l: c != "-",
+           rule="one head of every form truncated at every offset; the harness also decodes every dec1 buffer with the library's own cbor_empty_callbacks "
+                "(callbacks.c) and prints a marker when status / read / required differ"))
+
+# ---- the CBOR_ASSERTs of the models: no older stream ever trips one, so the assert_ ids of model H were tied to the code by reading only.
+#      Here the assert-enabled build must abort on the corresponding assertion exactly where the model reports Fault.
+import re as _re
+_ASSERT_ID_KEY = {"1": "refcount", "61": "is_int", "62": "int_width", "63": "is_float", "64": "float_width", "65": "isa_float_ctrl", "66": "float_width",
+                  "67": "is_bool", "70": "isa_uint", "71": "isa_negint", "72": "isa_bytestring", "73": "isa_string", "74": "isa_array", "75": "isa_map",
+                  "76": "isa_tag", "77": "isa_float_ctrl"}
+def _cond_key(fn, cond):
+    if "refcount > 0" in cond: k = "refcount"
+    elif "cbor_int_get_width" in cond: k = "int_width"
+    elif "cbor_float_get_width" in cond: k = "float_width"
+    else:
+        m = _re.search(r"cbor_(?:bytestring_|string_|array_|map_)?(is[a]?_[a-z_]+)\(", cond)
+        k = m.group(1) if m else cond
+    # functions whose assertions model H numbers individually; everywhere else the model says FType (wrong kind of item)
+    if _re.match(r"cbor_(set_|mark_|serialize_|decref)", fn):
+        return k
+    return "type"
+def assert_canon(line):
+    if line.startswith("CRASH") and "Assertion" in line:
+        m = _re.search(r": (\w+): Assertion `!_cbor_enable_assert \|\| \((.*)\)' failed", line)
+        return "ASSERT " + (_cond_key(m.group(1), m.group(2)) if m else line)
+    m = _re.search(r"FAULT:(?:assert-(\d+)|(type))", line)
+    if m:
+        return "ASSERT " + (_ASSERT_ID_KEY.get(m.group(1), "assert-" + m.group(1)) if m.group(1) else "type")
+    return line
+PROPS["C04"].streams.append(Stream(
+    "audit-asserts", "hist", histgen.audit_assert_cases, args=(LDEF, CAP, "none", 0), flavours=("dbg",), nontrivial=lambda c, l: True, canon=assert_canon,
+    rule="one call per CBOR_ASSERT that model H renders as assert_ (ids 1, 61-67, 70-77) or as FType on a client-reachable path (setters and markers on the wrong "
+         "type / width, decref at count 0, push / map add / tag set / tag item / add chunk / set_handle on the wrong kind of item, each typed serializer on another "
+         "type): the assert-enabled build must abort on the corresponding assertion exactly where the model reports Fault (both sides canonicalised to "
+         "'ASSERT <condition class>')"))
